@@ -10,14 +10,13 @@ type c05Construct struct {
 }
 
 var c05Table = []c05Construct{
-	{"npm", "caret", []int{1, 2, 3}, []string{"", "-{n}", "-{l}{l}.{d}"}},
+	{"npm", "caret", []int{2, 3}, []string{"", "-{n}", "-{l}{l}.{d}"}},
 	{"npm", "tilde", []int{1, 2, 3}, []string{"", "-{n}"}},
 	{"npm", "xrange", []int{1, 2}, []string{""}},
 	{"cargo", "caret", []int{1, 2, 3}, []string{"", "-{l}{l}{l}{l}{l}.{d}", "-{n}"}},
-	{"cargo", "bare", []int{1, 2, 3}, []string{""}},
 	{"cargo", "tilde", []int{1, 2, 3}, []string{"", "-{n}"}},
 	{"cargo", "wildcard", []int{1, 2}, []string{""}},
-	{"composer", "caret", []int{1, 2, 3}, []string{""}},
+	{"composer", "caret", []int{2, 3}, []string{""}},
 	{"composer", "tilde", []int{2, 3}, []string{""}},
 	{"composer", "wildcard", []int{1, 2}, []string{""}},
 	{"conan", "tilde", []int{1, 2, 3}, []string{""}},
